@@ -1,6 +1,7 @@
 package main
 
 import (
+	"hash/fnv"
 	"sort"
 	"bytes"
 	"context"
@@ -229,19 +230,28 @@ var solverSlots = make(chan struct{}, 16)
 
 func sanitizeFile(s string) string {
 	var sb strings.Builder
+	changed := false
 	for i := 0; i < len(s); i++ {
 		c := s[i]
 		if c >= 'a' && c <= 'z' || c >= 'A' && c <= 'Z' || c >= '0' && c <= '9' || c == '.' || c == '-' {
 			sb.WriteByte(c)
 		} else {
 			sb.WriteByte('_')
+			changed = true
 		}
 	}
-	s = sb.String()
-	if len(s) > 150 {
-		s = s[:150]
+	out := sb.String()
+	if len(out) > 140 {
+		out = out[:140]
+		changed = true
 	}
-	return s
+	if changed {
+		// distinct names must give distinct files (queries are written and solved concurrently)
+		h := fnv.New32a()
+		h.Write([]byte(s))
+		out += fmt.Sprintf("-%08x", h.Sum32())
+	}
+	return out
 }
 
 func raceOne(e *Enc, o *Obl, cfg *SolverCfg, base string) {
